@@ -146,6 +146,12 @@ class HttpProtocolHandler(BaseTcpServerHandler[HttpClientConnection]):
         if self.plugin:
             self.writes_teared = await self.plugin.write_to_descriptors(writables)
             if self.writes_teared:
+                # Threaded mode flushes the pending client buffer in shutdown().
+                # In threadless mode, data already received for the client must
+                # be flushed before this work is torn down.
+                if self.selector is None and self.work.has_buffer():
+                    self.must_flush_before_shutdown = True
+                    return False
                 return True
         # Read from ready to read sockets if reads have not already teared down
         if not self.reads_teared:
